@@ -609,7 +609,346 @@ pub fn replay<U: CircuitUni>(ctx: &Ctx, body: &Value) -> i32 {
     }
 }
 
+
+
+/// NPO arm: single-cell faults on the committed Poseidon2 and recompose tables of Merkle-opening
+/// circuits (library MMCS verification, arity 2 and 4, and raw `add_poseidon2_perm` paths that
+/// expose their index). Expected verdicts come from the documented row layout
+/// `[permutation columns | mmcs_bit | extra (bit2, bit*bit2) | mmcs_index_sum]`:
+/// a permutation column, the product column or a recompose cell changed by one is always illegal
+/// (the permutation columns are a function of the input cells, the recompose row is tied to its
+/// output on the bus); a direction bit or the index accumulator changed by one is illegal on a
+/// Merkle-path row and a don't-care elsewhere; a direction bit set to 2 is illegal on every row.
+pub fn npo_cells_run(ctx: &Ctx, idx: u64, out: &mut RunOut) {
+    use crate::props::{c08, c10};
+    use p3_circuit::ops::{NpoTypeId, Poseidon2Config, Poseidon2Trace};
+    type U = crate::uni::Kb4;
+    type BF = <U as CircuitUni>::BF;
+    let mut rng = Rng::new(ctx.seed, "C04-npo", idx);
+    let family = ["a2", "a4", "raw"][(idx / 4 % 3) as usize];
+    let hs = mix(mix(ctx.seed, idx), 0x6e63);
+    foldhash::sim::set_seed(hs);
+    let (built, p2cfg, desc): (Result<_, String>, Poseidon2Config, Value) = match family {
+        "a2" | "a4" => {
+            let uni = if family == "a4" { "U-KB4-A4" } else { "U-KB4" };
+            let shape = c08::draw_shape(&mut rng, uni, ctx.tier);
+            let max_h = shape.dims.iter().map(|d| d.0).max().unwrap();
+            let index = rng.usize_below(max_h);
+            let b = crate::core::pool::observe(|| if family == "a4" { c08::kb4a4::build_and_run(&shape, index) } else { c08::kb4::build_and_run(&shape, index) }).unwrap_or_else(Err);
+            (b, if family == "a4" { Poseidon2Config::KOALA_BEAR_D4_W32 } else { Poseidon2Config::KOALA_BEAR_D4_W16 }, json!({"shape": shape, "index": index}))
+        }
+        _ => {
+            let (depth, pre, expose) = (rng.range(1, 6), rng.range(0, 2), rng.chance(3, 4));
+            let b = c10::raw_merkle_build_kb4(depth, pre, expose, hs).map_err(|e| e.1);
+            (b, Poseidon2Config::KOALA_BEAR_D4_W16, json!({"depth": depth, "pre": pre, "expose_index": expose}))
+        }
+    };
+    let Ok((circuit, traces)) = built else {
+        out.count("npo_cells_circuit_not_buildable");
+        return;
+    };
+    let cfg = ProverCfg { npo: BuilderOpts { poseidon: true, recompose: true }, poseidon_w32: family == "a4", ..ProverCfg::default() };
+    let Ok((keys, info)) = pipe::keygen::<U>(&circuit, &cfg) else {
+        out.count("npo_cells_keygen_failed");
+        return;
+    };
+    let Ok(Ok(mats)) = crate::core::pool::observe(|| capture_matrices::<U>(&keys, &traces, &cfg)) else {
+        out.count("npo_cells_honest_prove_failed");
+        return;
+    };
+    // control: honest proof verifies
+    let control = (|| -> Result<(), pipe::Fail> {
+        let proof = pipe::prove::<U>(&keys, &traces, &cfg, None)?;
+        pipe::verify::<U>(&proof, &cfg, &info.commitment)
+    })();
+    out.evals += 1;
+    if control.is_err() {
+        out.count("npo_cells_honest_rejected_skipped");
+        return;
+    }
+    let Some(p2) = traces.non_primitive_trace::<Poseidon2Trace<BF>>(&NpoTypeId::poseidon2_perm(p2cfg)) else {
+        out.count("npo_cells_no_poseidon_trace");
+        return;
+    };
+    let n_ops = p2.operations.len();
+    let extra = if family == "a4" { 2 } else { 0 };
+    // the Poseidon table is the widest non-primitive table; recompose tables are the narrow ones
+    let Some((pt, _)) = mats.iter().enumerate().skip(3).max_by_key(|(_, m)| m.width()) else { return };
+    let pw = mats[pt].width();
+    let (bit_c, idx_c) = (pw - 2 - extra, pw - 1);
+    let class_of = |c: usize| -> &'static str {
+        if c == bit_c {
+            "bit"
+        } else if c == idx_c {
+            "index_sum"
+        } else if extra == 2 && c == bit_c + 1 {
+            "bit2"
+        } else if extra == 2 && c == bit_c + 2 {
+            "bit_x_bit2"
+        } else {
+            "perm"
+        }
+    };
+    // (table, row, col, set_to_two)
+    let mut cases: Vec<(usize, usize, usize, bool)> = Vec::new();
+    let rows = (n_ops + 1).min(mats[pt].height());
+    for r in 0..rows {
+        for c in bit_c..pw {
+            cases.push((pt, r, c, false));
+            if class_of(c) == "bit" || class_of(c) == "bit2" {
+                cases.push((pt, r, c, true));
+            }
+        }
+        for _ in 0..ctx.tier.pick(6, 40) {
+            cases.push((pt, r, rng.usize_below(bit_c), false));
+        }
+    }
+    for (t, m) in mats.iter().enumerate().skip(3) {
+        if t != pt {
+            for r in 0..m.height().min(4) {
+                for c in 0..m.width() {
+                    cases.push((t, r, c, false));
+                }
+            }
+        }
+    }
+    // the claimed index: every direction bit of the opening is a public input; flipping it in the
+    // Public table alone claims another leaf position for the same authenticated path
+    let row_level_only = ctx.prop == "C11";
+    let mut dir_rows: Vec<usize> = Vec::new();
+    if family != "raw" && !row_level_only {
+        if let (Some(sh), Some(_)) = (desc.get("shape"), desc.get("index")) {
+            let dims: Vec<(usize, usize)> = serde_json::from_value(sh["dims"].clone()).unwrap_or_default();
+            let n_open: usize = dims.iter().map(|d| d.1).sum();
+            let log_max = dims.iter().map(|d| d.0).max().unwrap_or(1).next_power_of_two().trailing_zeros() as usize;
+            dir_rows = (n_open..n_open + log_max).collect();
+            for &r in &dir_rows {
+                cases.push((1, r, 0, false));
+            }
+        }
+    }
+    let keys = &keys;
+    for (t, r, c, two) in cases {
+        let mut forged = mats.clone();
+        let w = forged[t].width();
+        if r * w + c >= forged[t].values.len() {
+            continue;
+        }
+        let cell = &mut forged[t].values[r * w + c];
+        let new = if t == 1 {
+            if *cell == BF::ZERO { BF::ONE } else { BF::ZERO }
+        } else if two {
+            BF::TWO
+        } else {
+            *cell + BF::ONE
+        };
+        if new == *cell {
+            continue;
+        }
+        *cell = new;
+        let shared = Arc::new(forged);
+        let s2 = shared.clone();
+        let tamper: Tamper<BF> = Box::new(move |m| {
+            for (dst, src) in m.iter_mut().zip(s2.iter()) {
+                if dst.values.len() == src.values.len() {
+                    dst.values.copy_from_slice(&src.values);
+                }
+            }
+        });
+        let accepted = (|| -> Result<(), pipe::Fail> {
+            let proof = pipe::prove::<U>(keys, &traces, &cfg, Some(tamper))?;
+            pipe::verify::<U>(&proof, &cfg, &info.commitment)
+        })()
+        .is_ok();
+        out.evals += 1;
+        out.steps += 1;
+        let (class, row_kind) = if t == 1 {
+            ("direction_input", "public")
+        } else if t == pt {
+            (class_of(c), if r >= n_ops { "padding" } else if p2.operations[r].merkle_path && p2.operations[r].new_start { "merkle_start" } else if p2.operations[r].merkle_path { "merkle" } else { "sponge" })
+        } else {
+            ("recompose", "any")
+        };
+        let kind = if two { "set2" } else { "plus1" };
+        if class == "direction_input" && std::env::var("VERIF_DUMP_SKIPPED").is_ok() {
+            eprintln!("DIRFLIP {family} bit={} accepted={accepted} {}", r - dir_rows[0], desc);
+        }
+        out.count(&format!("npo_fired_{kind}_{class}"));
+        out.distinct.insert(crate::core::prng::fnv64(format!("npo:{family}:{kind}:{class}:{row_kind}").as_bytes()));
+        // the index accumulator of a Merkle row is tied to its neighbours only: on a chain of one
+        // row (chain start, no continuation after it) that does not expose it, it is a don't-care
+        let isolated_sum = class == "index_sum"
+            && t == pt
+            && r < n_ops
+            && p2.operations[r].new_start
+            && !(r + 1 < n_ops && p2.operations[r + 1].merkle_path && !p2.operations[r + 1].new_start)
+            && family != "raw";
+        let must_reject = match (class, two) {
+            ("bit" | "bit2", true) => true,
+            ("perm" | "bit_x_bit2" | "recompose" | "direction_input", _) => true,
+            (_, false) => (row_kind == "merkle" || row_kind == "merkle_start") && !isolated_sum,
+            _ => false,
+        };
+        if accepted && must_reject {
+            out.violate(
+                format!("npo_cell:{family}:{kind}:{class}:{row_kind}"),
+                format!("{family} circuit: Poseidon/recompose table {t} row {r} ({row_kind}) column {c} ({class}) {}: the proof is ACCEPTED although that row is no longer a legal row", if two { "set to 2" } else { "increased by one" }),
+                json!({"npo_cells": true, "idx": idx, "family": family, "desc": desc, "table": t, "row": r, "col": c, "two": two}),
+            );
+        } else if accepted {
+            out.count("npo_dont_care_cell_accepted");
+        } else {
+            out.count("npo_forged_rejected");
+        }
+    }
+    // path transplant: the Merkle-path rows of an honest opening at another index (same cap entry)
+    // replace those of this opening; opened values, leaf hashing, claimed index bits and every
+    // other table stay those of this opening. Both paths end in the same root, so only a tie
+    // between the path rows and (leaf digest, direction bits) can reject it.
+    if family != "raw" && !row_level_only {
+        if let (Some(sh), Some(ix)) = (desc.get("shape"), desc.get("index").and_then(|x| x.as_u64())) {
+            let shape: c08::MmcsShape = serde_json::from_value(sh.clone()).unwrap();
+            let max_h = shape.dims.iter().map(|d| d.0).max().unwrap();
+            let path_bits = (max_h.next_power_of_two().trailing_zeros() as usize).saturating_sub(shape.cap_height);
+            if path_bits > 0 {
+                let other = (ix as usize) ^ (1 + rng.usize_below((1usize << path_bits) - 1).min((1usize << path_bits) - 2));
+                let b2 = crate::core::pool::observe(|| if family == "a4" { c08::kb4a4::build_and_run(&shape, other % max_h) } else { c08::kb4::build_and_run(&shape, other % max_h) }).unwrap_or_else(Err);
+                if let Ok((c2, t2)) = b2 {
+                    if let Ok((k2, _)) = pipe::keygen::<U>(&c2, &cfg) {
+                        if let (Ok(Ok(m2)), Some(p2b)) = (crate::core::pool::observe(|| capture_matrices::<U>(&k2, &t2, &cfg)), t2.non_primitive_trace::<Poseidon2Trace<BF>>(&NpoTypeId::poseidon2_perm(p2cfg))) {
+                            if m2.len() == mats.len() && m2[pt].values.len() == mats[pt].values.len() && p2b.operations.len() == n_ops {
+                                let mut forged = mats.clone();
+                                let w = forged[pt].width();
+                                let mut moved = 0;
+                                for r in 0..n_ops {
+                                    if p2.operations[r].merkle_path && p2b.operations[r].merkle_path {
+                                        forged[pt].values[r * w..(r + 1) * w].copy_from_slice(&m2[pt].values[r * w..(r + 1) * w]);
+                                        moved += 1;
+                                    }
+                                }
+                                if moved > 0 && forged[pt].values != mats[pt].values {
+                                    let shared = Arc::new(forged);
+                                    let s2 = shared.clone();
+                                    let tamper: Tamper<BF> = Box::new(move |m| {
+                                        for (dst, src) in m.iter_mut().zip(s2.iter()) {
+                                            if dst.values.len() == src.values.len() {
+                                                dst.values.copy_from_slice(&src.values);
+                                            }
+                                        }
+                                    });
+                                    let accepted = (|| -> Result<(), pipe::Fail> {
+                                        let proof = pipe::prove::<U>(keys, &traces, &cfg, Some(tamper))?;
+                                        pipe::verify::<U>(&proof, &cfg, &info.commitment)
+                                    })()
+                                    .is_ok();
+                                    out.evals += 1;
+                                    out.count("npo_fired_path_transplant");
+                                    out.distinct.insert(crate::core::prng::fnv64(format!("npo:{family}:transplant").as_bytes()));
+                                    if accepted {
+                                        out.violate(
+                                            format!("npo_path_transplant:{family}"),
+                                            format!("{family} circuit: the Merkle-path rows of the honest opening at index {} replace those of the opening at index {ix} (opened values, leaf hashing and claimed index bits unchanged): the proof is ACCEPTED, so the authenticated path is tied neither to the leaf digest nor to the claimed position", other % max_h),
+                                            json!({"npo_cells": true, "idx": idx, "family": family, "desc": desc, "transplant_from": other % max_h}),
+                                        );
+                                    } else {
+                                        out.count("npo_path_transplant_rejected");
+                                    }
+                                }
+                            }
+                        }
+                    }
+                }
+            }
+        }
+    }
+}
+
+/// Diagnostic / calibration run: every cell of the first rows of every non-primitive table of one
+/// Merkle-opening circuit is altered (+1), one at a time, proven and verified; prints which
+/// (table, column) classes the verifier still accepts. `kind`: a2 | a4.
+pub fn npo_cell_experiment(kind: &str, rows_cap: usize) -> i32 {
+    use crate::props::c08;
+    type U = crate::uni::Kb4;
+    let shape = c08::MmcsShape { universe: if kind == "a4" { "U-KB4-A4".into() } else { "U-KB4".into() }, dims: vec![(32, 3), (16, 2), (8, 5)], cap_height: 1, seed: 77 };
+    foldhash::sim::set_seed(5);
+    let built = if kind == "a4" { c08::kb4a4::build_and_run(&shape, 9) } else { c08::kb4::build_and_run(&shape, 9) };
+    let (circuit, traces) = match built {
+        Ok(x) => x,
+        Err(e) => {
+            println!("build failed: {e}");
+            return 2;
+        }
+    };
+    let cfg = ProverCfg { npo: BuilderOpts { poseidon: true, recompose: true }, poseidon_w32: kind == "a4", ..ProverCfg::default() };
+    let (keys, info) = match pipe::keygen::<U>(&circuit, &cfg) {
+        Ok(x) => x,
+        Err(f) => {
+            println!("keygen failed: {}", f.msg);
+            return 2;
+        }
+    };
+    let mats = capture_matrices::<U>(&keys, &traces, &cfg).unwrap();
+    println!("tables: {:?}", mats.iter().map(|m| (m.height(), m.width())).collect::<Vec<_>>());
+    println!("order: {:?}", info.air_order);
+    let mut jobs: Vec<(usize, usize, usize)> = Vec::new();
+    for (t, m) in mats.iter().enumerate().skip(3) {
+        for r in 0..m.height().min(rows_cap) {
+            for c in 0..m.width() {
+                jobs.push((t, r, c));
+            }
+        }
+    }
+    println!("cases: {}", jobs.len());
+    let keys = std::sync::Arc::new(keys);
+    let res = crate::core::pool::run_jobs(jobs.len() as u64, |i| {
+        let (t, r, c) = jobs[i as usize];
+        let mut out = RunOut::default();
+        let mut forged = mats.clone();
+        let w = forged[t].width();
+        forged[t].values[r * w + c] += <U as CircuitUni>::BF::ONE;
+        let shared = Arc::new(forged);
+        let s2 = shared.clone();
+        let tamper: Tamper<<U as CircuitUni>::BF> = Box::new(move |m| {
+            for (dst, src) in m.iter_mut().zip(s2.iter()) {
+                if dst.values.len() == src.values.len() {
+                    dst.values.copy_from_slice(&src.values);
+                }
+            }
+        });
+        let ok = (|| -> Result<(), pipe::Fail> {
+            let proof = pipe::prove::<U>(&keys, &traces, &cfg, Some(tamper))?;
+            pipe::verify::<U>(&proof, &cfg, &info.commitment)
+        })()
+        .is_ok();
+        if ok {
+            out.count(&format!("accepted t{t} r{r} c{c}"));
+        }
+        out.evals = 1;
+        out
+    });
+    match res {
+        Ok(outs) => {
+            let mut total = RunOut::default();
+            for o in outs {
+                total.merge(o);
+            }
+            for (k, v) in &total.counters {
+                println!("{k} x{v}");
+            }
+            println!("accepted {} of {}", total.counters.len(), total.evals);
+            0
+        }
+        Err(e) => {
+            println!("error {e}");
+            2
+        }
+    }
+}
+
 pub fn main(ctx: &Ctx) -> i32 {
+    if let Some(k) = ctx.args.get("npocells") {
+        return npo_cell_experiment(k, ctx.args.get("rows").and_then(|x| x.parse().ok()).unwrap_or(4));
+    }
     let prop = ctx.prop.clone();
     if let Some(path) = &ctx.replay {
         let body: Value = match std::fs::read_to_string(path).ok().and_then(|s| serde_json::from_str(&s).ok()) {
@@ -627,6 +966,11 @@ pub fn main(ctx: &Ctx) -> i32 {
         // degree-4 universes carry most runs (one in twelve with the hiding PCS); the other degrees /
         // reductions of the ALU table (base field, binomial 2 / 5 / 8, quintic trinomial) share the rest
         crate::with_uni!(crate::uni::uni_of(idx), U, one_run::<U>(ctx, &prop, idx, &mut out));
+        // non-primitive table rows: every fourth run of C04; a thin sample of C11's many runs (the
+        // row-level faults only: bus-level ones are skipped there)
+        if (prop == "C04" && idx % 4 == 1) || (prop == "C11" && idx % 200 == 1) {
+            npo_cells_run(ctx, idx, &mut out);
+        }
         let mut d = crate::core::prng::Digest::new();
         d.u64(out.evals);
         for (k, v) in &out.counters {
